@@ -6,6 +6,6 @@ CONSTANTS Tables = {"a"}
           MaxItems = 4
           MaxBatch = 3
           MaxCrashes = 2
-          TailBeyondSync = FALSE
-INVARIANTS NeverFails Aligned ReadableCorrect Durable Monotone IndexOK
+          TailBeyondSync = TRUE
+INVARIANTS FailsOnlyKnown Aligned ReadableCorrect Durable Monotone IndexOK
 CHECK_DEADLOCK FALSE
